@@ -186,6 +186,13 @@ Section CoreReaders.
     unfold set_node_attr. rewrite Eg. destruct (lookup n (nodes (g s))); [|exact H].
     unfold core_eq. cbn [g seg ft upd_g]. auto.
   Qed.
+  Lemma dna_core n k : core_eq (del_node_attr s n k) (del_node_attr s' n k).
+  Proof.
+    unfold del_node_attr. rewrite Eg. destruct (lookup n (nodes (g s))); [|exact H].
+    unfold core_eq. cbn [g seg ft upd_g]. auto.
+  Qed.
+  Lemma apply_attr_core n kv : core_eq (apply_attr s n kv) (apply_attr s' n kv).
+  Proof. unfold apply_attr. destruct (snd kv); first [apply dna_core | apply sna_core]. Qed.
   Lemma sea_core u v k x : core_eq (set_edge_attr s u v k x) (set_edge_attr s' u v k x).
   Proof.
     unfold set_edge_attr. rewrite core_has_edge. destruct (has_edge s u v); [|exact H].
@@ -200,6 +207,9 @@ End CoreReaders.
 
 Lemma set_attrs_core s s' n a : core_eq s s' -> core_eq (set_attrs s n a) (set_attrs s' n a).
 Proof. unfold set_attrs. apply fold_rel. intros x x' kv Hx. now apply sna_core. Qed.
+
+Lemma apply_attrs_core s s' n a : core_eq s s' -> core_eq (apply_attrs s n a) (apply_attrs s' n a).
+Proof. unfold apply_attrs. apply fold_rel. intros x x' kv Hx. now apply apply_attr_core. Qed.
 
 Lemma rp_update_core s s' n : core_eq s s' -> core_eq (rp_update s n) (rp_update s' n).
 Proof.
@@ -234,7 +244,7 @@ Lemma do_upd_attrs_core s s' n new : core_eq s s' -> res_core (do_upd_attrs s n 
 Proof.
   intros H. unfold do_upd_attrs. rewrite (core_protected_keys _ _ H). pose proof H as (Eg & Es & Ef).
   destruct (existsb _ new); [cbn; auto|]. rewrite Eg. destruct (lookup n (nodes (g s))).
-  - cbn. split; [reflexivity|]. now apply (set_attrs_core s s' n new).
+  - cbn. split; [reflexivity|]. now apply (apply_attrs_core s s' n new).
   - destruct new; cbn; auto.
 Qed.
 
@@ -669,10 +679,35 @@ Proof.
     rewrite Z.eqb_refl. f_equal. apply Hall. now left.
 Qed.
 
+(* UpdateNodeAttrs._apply key by key: a None value removes the attribute, which is the same
+   observation as storing it, so up to [obsv] the last binding still wins *)
+Lemma last_binding_obsv k a d d' : obsv d = obsv d' -> obsv (last_binding k a d) = obsv (last_binding k a d').
+Proof.
+  revert d d'. induction a as [|[k1 v1] r IH]; intros d d' H; cbn [last_binding]; [exact H|].
+  apply IH. destruct (k =? k1); [reflexivity|exact H].
+Qed.
+Lemma apply_attr_node_ids st n kv : node_ids (apply_attr st n kv) = node_ids st.
+Proof. unfold apply_attr. destruct (snd kv); first [apply dna_node_ids | apply sna_node_ids]. Qed.
+Lemma apply_attr_attr_same st n kv : is_node st n -> obsv (attr (apply_attr st n kv) n (fst kv)) = obsv (Some (snd kv)).
+Proof.
+  intros Hn. unfold apply_attr. destruct (snd kv) eqn:E;
+    first [rewrite dna_attr_same by exact Hn | rewrite sna_attr_same by exact Hn]; reflexivity.
+Qed.
+Lemma apply_attr_attr_other st n kv m k' : (m <> n \/ k' <> fst kv) -> attr (apply_attr st n kv) m k' = attr st m k'.
+Proof. intros H. unfold apply_attr. destruct (snd kv); first [now apply dna_attr_other | now apply sna_attr_other]. Qed.
+Lemma apply_attrs_attr st n a :
+  is_node st n -> forall k, obsv (attr (apply_attrs st n a) n k) = obsv (last_binding k a (attr st n k)).
+Proof.
+  unfold apply_attrs. revert st. induction a as [|[k1 v1] r IH]; intros st Hn k; cbn [fold_left last_binding]; [reflexivity|].
+  rewrite IH by (unfold is_node; now rewrite apply_attr_node_ids). apply last_binding_obsv.
+  destruct (Z.eqb_spec k k1) as [->|Hne]; [now apply (apply_attr_attr_same st n (k1, v1))|].
+  f_equal. apply apply_attr_attr_other. now right.
+Qed.
+
 Lemma upd_attrs_char st n new b st1 : do_upd_attrs st n new = Ok b st1 ->
   (forall k, In k (keys new) -> ~ In k (protected_keys st)) /\
   ((~ is_node st n /\ new = [] /\ st1 = st /\ b = BUpdAttrs n [] []) \/
-   (is_node st n /\ st1 = set_attrs st n new /\
+   (is_node st n /\ st1 = apply_attrs st n new /\
     b = BUpdAttrs n (map (fun kv => (fst kv, match attr st n (fst kv) with Some v => v | None => VNone end)) new) new)).
 Proof.
   intros H. split; [apply (do_upd_attrs_inv _ _ _ _ _ H)|]. unfold do_upd_attrs in H.
@@ -691,8 +726,8 @@ Proof.
   - cbn [inv_basic].
     set (prev := map (fun kv => (fst kv, match attr st n (fst kv) with Some v => v | None => VNone end)) new).
     assert (Hkeys : keys prev = keys new) by (unfold prev, keys; rewrite map_map; reflexivity).
-    destruct (set_attrs_upd_at st n new) as [A F].
-    set (st1 := set_attrs st n new) in *.
+    destruct (apply_attrs_upd_at st n new) as [A F].
+    set (st1 := apply_attrs st n new) in *.
     assert (Hn1 : is_node st1 n) by (now apply (attr_upd_is_node _ _ n A)).
     unfold do_upd_attrs.
     assert (Ex : existsb (fun kv => memz (fst kv) (protected_keys st1)) prev = false).
@@ -700,8 +735,8 @@ Proof.
       apply memz_In in Hm. unfold protected_keys in Hm. rewrite (au_ft _ _ A) in Hm. apply (Hp (fst kv)); [|exact Hm].
       rewrite <- Hkeys. unfold keys. now apply in_map. }
     rewrite Ex. apply is_node_lookup in Hn1. destruct Hn1 as [d1 Hd1]. rewrite Hd1.
-    eexists _, _. split; [reflexivity|]. fold (set_attrs st1 n prev).
-    destruct (set_attrs_upd_at st1 n prev) as [A2 F2]. split; [|now rewrite (au_bk _ _ A2), (au_bk _ _ A)].
+    eexists _, _. split; [reflexivity|]. fold (apply_attrs st1 n prev).
+    destruct (apply_attrs_upd_at st1 n prev) as [A2 F2]. split; [|now rewrite (au_bk _ _ A2), (au_bk _ _ A)].
     assert (Hn1 : is_node st1 n) by (apply is_node_lookup; now exists d1).
     constructor.
     + intros m. rewrite (attr_upd_is_node _ _ m A2). apply (attr_upd_is_node _ _ m A).
@@ -709,7 +744,7 @@ Proof.
     + intros m k _. unfold attr_obs.
       destruct (Z.eq_dec m n) as [->|Hm]; [|rewrite F2, F by (now left); reflexivity].
       destruct (in_dec Z.eq_dec k (keys new)) as [Hk|Hk]; [|rewrite F2, F by (right; congruence); reflexivity].
-      rewrite (set_attrs_attr st1 n prev Hn1 k).
+      rewrite (apply_attrs_attr st1 n prev Hn1 k).
       rewrite (last_binding_const k prev (match attr st n k with Some v => v | None => VNone end)).
       * unfold obsv. destruct (attr st n k) as [[]|]; reflexivity.
       * intros v Hv. unfold prev in Hv. apply in_map_iff in Hv. destruct Hv as (kv & E & _). now injection E as <- <-.
@@ -2386,3 +2421,156 @@ Theorem C01_user_delete_edge st u v a st' :
   WF st -> user_delete_edge_core st u v = Ok a st' ->
   exists b st2, inv_action st' a = Ok b st2 /\ obs_eq st2 st.
 Proof. intros W H. exact (C01_user_delete_edge_at st u v a st' st' W H (pw_eq_refl st')). Qed.
+
+(* ---- UserAddEdge ---- *)
+From FT Require Proofs.EditTrk Proofs.EditUserEdge.
+
+(* in a forest the ancestors of a node form a chain *)
+Lemma anc_chain st a b m : W_forest st -> EditWalk.reach st a m -> EditWalk.reach st b m ->
+  EditWalk.reach st a b \/ EditWalk.reach st b a.
+Proof.
+  intros WF Ra Rb. apply clos_rt_rtn1 in Rb. induction Rb as [|p y Hpy Rb IH]; [now left|].
+  destruct (Z.eq_dec y a) as [->|Hne].
+  - right. apply clos_rtn1_rt in Rb. eapply rt_trans; [exact Rb|now apply rt_step].
+  - apply IH. now apply (EditLin.reach_parent st a p y WF Hpy Hne).
+Qed.
+
+(* joining v (no parent, later than u) under u: the track id of u does not occur below v *)
+Lemma trk_join_pre st u v m : W_dict st -> W_forest st -> W_trk st ->
+  is_node st u -> is_node st v -> time_of st u < time_of st v -> (forall p, ~ edge st p v) ->
+  EditWalk.reach st v m -> trk st m <> trk st u.
+Proof.
+  intros WD WF WT Nu Nv Ht Hnp R Eq.
+  assert (Nm : is_node st m) by (now apply (EditWalk.reach_is_node st v m WD Nv)).
+  destruct (head_above st m WD WF WT Nm) as (hm & Hhm & Rm & Em).
+  destruct (head_above st u WD WF WT Nu) as (hu & Hhu & Ru & Eu).
+  assert (hm = hu) by (apply (wt2 st WT); [exact Hhm|exact Hhu|congruence]). subst hm.
+  assert (Rvu : EditWalk.reach st v u).
+  { destruct (anc_chain st v hu m WF R Rm) as [Rvh|Rhv].
+    - eapply rt_trans; eauto.
+    - apply clos_rt_rtn1 in Rhv. destruct Rhv as [|p y Hpy _]; [exact Ru|]. exfalso. exact (Hnp p Hpy). }
+  destruct (EditLin.reach_time st WF v u Rvu) as [E|T]; [subst; lia|lia].
+Qed.
+
+Lemma top_wrap_false p r : top_wrap false p r = r.
+Proof. destruct r; reflexivity. Qed.
+
+Lemma upd_track_keeps st start newT newL b st1 : cfg_ok st -> W_dict st -> W_forest st ->
+  do_upd_track st start newT newL = Ok b st1 ->
+  cfg_ok st1 /\ W_dict st1 /\ W_forest st1 /\ node_ids st1 = node_ids st /\ succs (g st1) = succs (g st) /\
+  (forall m k, k <> KTrack -> k <> KLin -> attr st1 m k = attr st m k) /\
+  (newL = None -> forall m, lin st1 m = lin st m).
+Proof.
+  intros Cfg WD WF H.
+  destruct (upd_track_effect _ _ _ _ _ _ Cfg WD WF H) as (oldT & vis & _ & _ & _ & _ & _ & _ & _ & _ & Ei & Es & _ & Ef & F & _ & KL).
+  split; [unfold cfg_ok; now rewrite Ef|]. split; [exact (upd_track_W_dict _ _ _ _ _ _ Cfg WD H)|]. split.
+  { apply (EditWalk.same_struct_W_forest st st1); [|exact WF].
+    pose proof (EditWalk.do_upd_track_struct st start newT newL _ eq_refl) as S. now rewrite H in S. }
+  split; [exact Ei|]. split; [exact Es|]. split; [exact F|]. intros -> m. unfold lin, zattr. now rewrite KL.
+Qed.
+
+Lemma uae_tail_undo pre s u v a sf :
+  cfg_ok s -> W_dict s -> W_forest s -> W_trk s -> W_lin s -> EditTrk.trk_bounded s ->
+  is_node s u -> is_node s v -> time_of s u < time_of s v -> (forall p, ~ edge s p v) ->
+  EditLin.uae_tail pre s u v = Ok a sf ->
+  exists tail, a = AGroup (pre ++ tail) /\
+    forall sx, pw_eq sf sx -> exists l' s', inv_list tail sx = Ok l' s' /\ pw_eq s s'.
+Proof.
+  intros Cfg WD WF WT WL Hb Nu Nv Ht Hnp H. unfold EditLin.uae_tail in H. cbv zeta in H.
+  assert (Hld : forall x, lin_down s x) by (intros x; now apply lin_down_of_W_lin).
+  destruct (out_degree s u =? 0) eqn:Eod.
+  - (* join *)
+    destruct (zattr s u KTrack) as [t|] eqn:Et; [|discriminate].
+    destruct (do_upd_track s v t (zattr s u KLin)) as [b s2|e s2] eqn:H2; [|discriminate]. cbn [bind] in H.
+    destruct (do_add_edge s2 u v []) as [b' s3|e s3] eqn:H3; [|discriminate]. cbn [bind] in H. injection H as <- <-.
+    exists [ABasic b; ABasic b']. split; [now rewrite <- app_assoc|]. intros sx Px. rewrite inv_list_2.
+    destruct (upd_track_keeps _ _ _ _ _ _ Cfg WD WF H2) as (Cfg2 & WD2 & WF2 & Ei2 & Es2 & _).
+    assert (Hne : has_edge s2 u v = false).
+    { destruct (has_edge s2 u v) eqn:E; [|reflexivity]. exfalso. apply (Hnp u). unfold edge, has_edge, adj in *. now rewrite <- Es2. }
+    destruct (add_edge_undo_at s2 u v [] b' s3 sx WD2 Hne H3 Px) as (b'' & s2' & I3 & P2). rewrite I3.
+    assert (Hpre : upd_track_pre s v t).
+    { apply upd_track_pre_doc; [|exact WD|exact WF]. intros oldT m _ R Hm. exfalso.
+      apply (trk_join_pre s u v m WD WF WT Nu Nv Ht Hnp R). rewrite Hm. symmetry. exact Et. }
+    destruct (upd_track_undo_at s v t _ b s2 s2' Cfg WD WF (Hld v) Hpre H2 P2) as (b2' & s' & I2 & P). rewrite I2.
+    eexists _, _. split; [reflexivity|exact P].
+  - (* u gets a second child: its first child starts a new track *)
+    destruct (out_degree s u =? 1) eqn:Eod1; [|discriminate].
+    destruct (successors s u) as [|c rest] eqn:Es; [discriminate|].
+    destruct (do_upd_track s c (next_trk s) None) as [b s2|e s2] eqn:H2; [|discriminate]. cbn [bind] in H.
+    destruct (zattr s2 v KTrack) as [tv|] eqn:Etv; [|discriminate].
+    destruct (do_upd_track s2 v tv (zattr s2 u KLin)) as [b2 s3|e s3] eqn:H3; [|discriminate]. cbn [bind] in H.
+    destruct (do_add_edge s3 u v []) as [b' s4|e s4] eqn:H4; [|discriminate]. cbn [bind] in H. injection H as <- <-.
+    exists [ABasic b; ABasic b2; ABasic b']. split; [now rewrite <- app_assoc|]. intros sx Px. rewrite inv_list_3.
+    destruct (upd_track_keeps _ _ _ _ _ _ Cfg WD WF H2) as (Cfg2 & WD2 & WF2 & Ei2 & Es2 & F2 & L2).
+    destruct (upd_track_keeps _ _ _ _ _ _ Cfg2 WD2 WF2 H3) as (Cfg3 & WD3 & WF3 & Ei3 & Es3 & _).
+    assert (Hne : has_edge s3 u v = false).
+    { destruct (has_edge s3 u v) eqn:E; [|reflexivity]. exfalso. apply (Hnp u). unfold edge, has_edge, adj in *. now rewrite <- Es2, <- Es3. }
+    destruct (add_edge_undo_at s3 u v [] b' s4 sx WD3 Hne H4 Px) as (b'' & s3' & I4 & P3). rewrite I4.
+    assert (Hpre3 : upd_track_pre s2 v tv).
+    { apply upd_track_pre_doc; [|exact WD2|exact WF2]. intros oldT m Hto _ _. unfold trk in Hto. congruence. }
+    assert (Hld2 : lin_down s2 v).
+    { apply (lin_down_sub s s2 v WL); [|now apply L2]. intros x y Hxy. unfold edge, has_edge, adj in *. now rewrite <- Es2. }
+    destruct (upd_track_undo_at s2 v tv _ b2 s3 s3' Cfg2 WD2 WF2 Hld2 Hpre3 H3 P3) as (b2' & s2' & I3 & P2). rewrite I3.
+    assert (Nc : is_node s c).
+    { apply (wd_edge_nodes s WD u c). apply edge_successors. rewrite Es. now left. }
+    assert (Hpre2 : upd_track_pre s c (next_trk s)).
+    { apply upd_track_pre_doc; [|exact WD|exact WF]. intros oldT m _ R Hm. exfalso.
+      apply (EditTrk.trk_bounded_fresh s Hb m); [|exact Hm]. now apply (EditWalk.reach_is_node s c m WD Nc). }
+    destruct (upd_track_undo_at s c _ None b s2 s2' Cfg WD WF (Hld c) Hpre2 H2 P2) as (b1' & s' & I2 & P). rewrite I2.
+    eexists _, _. split; [reflexivity|exact P].
+Qed.
+
+Theorem C01_user_add_edge st u v force a st' :
+  WF st -> user_add_edge_core st u v force = Ok a st' ->
+  exists b st2, inv_action st' a = Ok b st2 /\ obs_eq st2 st.
+Proof.
+  intros W H. pose proof W as [Cfg WD WFo WT WL WB WS WFr]. rewrite EditLin.uae_core_unfold in H.
+  destruct (has_node st u) eqn:Hu; [|discriminate]. destruct (has_node st v) eqn:Hv; [|discriminate]. cbn [negb] in H.
+  destruct (time_of st u >=? time_of st v) eqn:Et; [discriminate|].
+  destruct (out_degree st u - (if has_edge st u v then 1 else 0) >? 1); [discriminate|].
+  apply has_node_is_node in Hu. apply has_node_is_node in Hv.
+  assert (Ht : time_of st u < time_of st v) by (rewrite Z.geb_leb in Et; apply Z.leb_gt in Et; lia).
+  destruct (in_degree st v >? 0) eqn:Ein.
+  - destruct force; cbn [negb] in H; [|discriminate].
+    destruct (predecessors st v) as [|p r] eqn:Ep.
+    { exfalso. unfold in_degree in Ein. rewrite Ep in Ein. discriminate. }
+    assert (Hpv : is_node st p /\ edge st p v) by (apply EditGraph.in_predecessors; rewrite Ep; now left).
+    destruct Hpv as [Np Epv].
+    unfold user_delete_edge in H. rewrite top_wrap_false in H.
+    destruct (user_delete_edge_core st p v) as [a0 s|e s] eqn:Hude; [|discriminate]. cbn [bind] in H.
+    (* the state after the forced removal of the merge edge *)
+    destruct (EditUserEdge.ude_core_spec st p v WD WFo) as [_ Hy]. destruct (Hy Epv) as (a0' & s0 & H0 & WDs & WFs & Gs & Es & _).
+    rewrite Hude in H0. injection H0 as <- <-.
+    destruct (EditLin.ude_core_LWF st p v a0 s (EditLin.Build_LWF st Cfg WD WFo WL WB) Hude) as [Cfgs _ _ WLs WBs].
+    destruct (EditTrk.ude_trk st p v WD WFo WT (EditTrk.W_book_trk_bounded st WB) (proj1 Cfg) Epv) as (a1 & s1 & H1 & WTs & Hbs & _).
+    rewrite Hude in H1. injection H1 as <- <-.
+    assert (Nus : is_node s u) by (now apply (EditUserEdge.gstep_is_node _ _ _ Gs)).
+    assert (Nvs : is_node s v) by (now apply (EditUserEdge.gstep_is_node _ _ _ Gs)).
+    assert (Hts : time_of s u < time_of s v) by (rewrite !(EditUserEdge.gstep_time _ _ _ Gs); exact Ht).
+    assert (Hnp : forall q, ~ edge s q v).
+    { intros q Hq. apply Es in Hq. destruct Hq as [Hq Hn]. apply Hn. split; [|reflexivity]. apply (wf_in st WFo q p v Hq Epv). }
+    destruct (uae_tail_undo [a0] s u v a st' Cfgs WDs WFs WTs WLs Hbs Nus Nvs Hts Hnp H) as (tail & -> & Hundo).
+    rewrite inv_action_group, inv_list_app.
+    destruct (Hundo st' (pw_eq_refl st')) as (l' & s' & I1 & P1). rewrite I1. cbn [bind inv_list].
+    destruct (C01_user_delete_edge_at st p v a0 s s' W Hude P1) as (b0 & st2 & I0 & O0). rewrite I0. cbn [bind].
+    eexists _, _. split; [reflexivity|exact O0].
+  - assert (Hnp : forall q, ~ edge st q v).
+    { intros q Hq. assert (In q (predecessors st v)) as Hin by (apply EditGraph.in_predecessors; split; [apply (wd_edge_nodes st WD q v Hq)|exact Hq]).
+      assert (in_degree st v >? 0 = true) by (apply EditUserEdge.in_degree_pos; eauto). congruence. }
+    cbn [bind] in H.
+    destruct (uae_tail_undo [] st u v a st' Cfg WD WFo WT WL (EditTrk.W_book_trk_bounded st WB) Hu Hv Ht Hnp H) as (tail & -> & Hundo).
+    rewrite inv_action_group. cbn [app].
+    destruct (Hundo st' (pw_eq_refl st')) as (l' & s' & I1 & P1). rewrite I1. cbn [bind].
+    eexists _, _. split; [reflexivity|apply obs_eq_sym, pw_eq_obs, P1].
+Qed.
+
+(* ---- UserUpdateNodeAttrs ---- *)
+Theorem C01_user_update_attrs st n new a st1 :
+  user_update_attrs_core st n new = Ok a st1 ->
+  exists b st2, inv_action st1 a = Ok b st2 /\ obs_eq st2 st.
+Proof.
+  unfold user_update_attrs_core. destruct (do_upd_attrs st n new) as [b0 s|e s] eqn:H0; [|discriminate]. cbn [bind].
+  intros H. injection H as <- <-. destruct (upd_attrs_inverse _ _ _ _ _ H0) as (b' & st2 & H2 & O2 & _).
+  rewrite inv_action_group. cbn [inv_list bind inv_action]. rewrite H2. cbn [bind].
+  eexists _, _. split; [reflexivity|now apply obs_eq_sym].
+Qed.
